@@ -34,6 +34,13 @@ def u_h(ctx):
     mapfn_lemmas(ctx, "Haldane")
 
 
+# the crossover probabilities the gamete law is stated over are map-function values: both map functions stay inside [0, 1/2] and
+# send +inf (a chromosome start) to exactly one half
+@unit(P, "lemma[Kosambi laws]", "L", targets=["pybrops/popgen/gmap/KosambiMapFunction.py:KosambiMapFunction.mapfn"])
+def u_k(ctx):
+    mapfn_lemmas(ctx, "Kosambi")
+
+
 @unit(P, "lemma[probability algebra of independent switches]", "L", targets=[])
 def u_prob(ctx):
     """Deterministic reduction of the distributional statement (DESIGN §8 C02).  Assumed, not verified: the entries of
